@@ -23,6 +23,9 @@ structure NoClash (id : Id) (s : State) : Prop where
   alias : ∀ j e a, s.a.lookup j = some e → e.alias = some a → ¬ Clash id a
   roles : ∀ j e r, s.a.lookup j = some e → r ∈ e.roles → ¬ Clash id r
   owner : ∀ j e o, s.a.lookup j = some e → e.owner = some o → ¬ Clash id o
+  dep : ∀ j e o, s.a.lookup j = some e → e.dep = some o → ¬ Clash id o
+  /-- the id is not an encoded link count (5 bytes starting with the int32 type byte) -/
+  counts : ∀ n, ¬ Clash id (encCount n)
   code : ∀ j e c, s.a.lookup j = some e → e.code = some c → ¬ Clash id c
   label : ∀ j e l, s.b.lookup j = some e → e.label = some l → ¬ Clash id l
 
@@ -67,6 +70,47 @@ theorem not_mentions_listBucket {id : Bytes} {path keys : List Bytes} (hne : id 
   · exact not_mentions_bucket h
   · exact not_mentions_kv h (safe_typed (hk k hk')) (safe_nil hne)
 
+theorem not_mentions_countBucket {id : Bytes} {path : List Bytes} {c : Counts} (h : ∀ x, x ∈ path → Safe id x)
+    (hk : ∀ k n, c.lookup k = some n → ¬ Clash id k) (hv : ∀ n, ¬ Clash id (encCount n)) :
+    ∀ l, l ∈ countBucket path c → ¬ Mentions id l := by
+  intro l hl
+  simp only [countBucket, List.mem_cons, List.mem_map, Prod.exists, Map.mem_entries_iff] at hl
+  rcases hl with rfl | ⟨k, n, hkn, rfl⟩
+  · exact not_mentions_bucket h
+  · exact not_mentions_kv h (safe_typed (hk k n hkn)) (safe_of_not_clash (hv n))
+
+theorem mem_optBucket {α : Type} {f : α → List Line} {o : Option α} {l : Line} :
+    l ∈ optBucket f o ↔ ∃ x, o = some x ∧ l ∈ f x := by
+  cases o <;> simp [optBucket]
+
+theorem LinkInv.fwd_target {p : LinkPair} {aEx bEx : Id → Bool} (h : LinkInv p aEx bEx) {j b : Id} {l : List Id}
+    (hl : p.fwd.lookup j = some l) (hb : b ∈ l) : bEx b = true := by
+  have h1 := (h.sym j b).1 (by simp [hl, hb])
+  cases hm : p.bwd.lookup b with
+  | none => simp [hm] at h1
+  | some ms => exact h.bwdDom b ms hm
+
+theorem LinkInv.bwd_source {p : LinkPair} {aEx bEx : Id → Bool} (h : LinkInv p aEx bEx) {j b : Id} {l : List Id}
+    (hl : p.bwd.lookup b = some l) (hj : j ∈ l) : aEx j = true := by
+  have h1 := (h.sym j b).2 (by simp [hl, hj])
+  cases hm : p.fwd.lookup j with
+  | none => simp [hm] at h1
+  | some gs => exact h.fwdDom j gs hm
+
+theorem RcInv.fwd_target {r : RcPair} {aEx bEx : Id → Bool} (h : RcInv r aEx bEx) {a b : Id} {c : Counts} {n : Nat}
+    (hc : r.fwd.lookup a = some c) (hn : c.lookup b = some n) : bEx b = true := by
+  have h1 : cnt r.bwd b a = some n := by rw [← h.agree]; simp [cnt, hc, hn]
+  cases hm : r.bwd.lookup b with
+  | none => simp [cnt, hm] at h1
+  | some cb => exact h.bwdDom b cb hm
+
+theorem RcInv.bwd_source {r : RcPair} {aEx bEx : Id → Bool} (h : RcInv r aEx bEx) {a b : Id} {c : Counts} {n : Nat}
+    (hc : r.bwd.lookup b = some c) (hn : c.lookup a = some n) : aEx a = true := by
+  have h1 : cnt r.fwd a b = some n := by rw [h.agree]; simp [cnt, hc, hn]
+  cases hm : r.fwd.lookup a with
+  | none => simp [cnt, hm] at h1
+  | some ca => exact h.fwdDom a ca hm
+
 theorem safe_reserved {id : Bytes} {s : State} (hc : NoClash id s) {x : Bytes} (hx : x ∈ reserved) : Safe id x :=
   safe_of_not_clash (hc.reserved x hx)
 
@@ -92,6 +136,23 @@ theorem no_trace_of_absent {s : State} {id : Id} (hi : Inv s) (hc : NoClash id s
   have sC : Safe id bCode := safe_reserved hc (by simp [reserved])
   have sL : Safe id bLabel := safe_reserved hc (by simp [reserved])
   have sM : Safe id bMembers := safe_reserved hc (by simp [reserved])
+  have sD : Safe id bDep := safe_reserved hc (by simp [reserved])
+  have sP : Safe id bPals := safe_reserved hc (by simp [reserved])
+  have sPO : Safe id bPalsOf := safe_reserved hc (by simp [reserved])
+  have sRB : Safe id bRcB := safe_reserved hc (by simp [reserved])
+  have sRA : Safe id bRcA := safe_reserved hc (by simp [reserved])
+  have aOf : ∀ j, s.aEx j = true → ∃ e, s.a.lookup j = some e := by
+    intro j hj; cases hl : s.a.lookup j with
+    | none => simp [State.aEx, hl] at hj
+    | some e => exact ⟨e, rfl⟩
+  have bOf : ∀ j, s.bEx j = true → ∃ e, s.b.lookup j = some e := by
+    intro j hj; cases hl : s.b.lookup j with
+    | none => simp [State.bEx, hl] at hj
+    | some e => exact ⟨e, rfl⟩
+  have cOf : ∀ j, s.cEx j = true → ∃ e, s.a.lookup j = some e := by
+    intro j hj; cases hl : s.a.lookup j with
+    | none => simp [State.cEx, hl] at hj
+    | some e => exact ⟨e, rfl⟩
   intro l hl
   simp only [Render, List.mem_append, List.mem_flatMap, Prod.exists, Map.mem_entries_iff] at hl
   rcases hl with ((((((((hl | hl) | hl) | ⟨j, e, hj, hl⟩) | ⟨j, e, hj, hl⟩) | ⟨v, i, hv, hl⟩) | ⟨v, i, hv, hl⟩) |
@@ -121,35 +182,39 @@ theorem no_trace_of_absent {s : State} {id : Id} (hi : Inv s) (hc : NoClash id s
       rcases hx with hx | rfl
       · exact hp x hx
       · exact hn
-    simp only [renderA, List.mem_append, List.mem_cons, List.mem_nil_iff, or_false] at hl
-    rcases hl with (((rfl | rfl | rfl | rfl) | hl) | hl) | hl
+    have hp3 : ∀ (n m : Bytes), Safe id n → Safe id m → ∀ x, x ∈ pathA j ++ [n, m] → Safe id x := by
+      intro n m hn hm x hx; simp only [List.mem_append, List.mem_cons, List.mem_nil_iff, or_false] at hx
+      rcases hx with hx | rfl | rfl
+      · exact hp x hx
+      · exact hn
+      · exact hm
+    simp only [renderA, List.mem_append, List.mem_cons, List.mem_nil_iff, or_false, mem_optBucket] at hl
+    rcases hl with ((((rfl | rfl | rfl | rfl | rfl) | hl) | ⟨gs, hg, hl⟩) | ⟨c, hrc, hl⟩) | hl
     · exact not_mentions_bucket hp
     · exact not_mentions_kv hp sN (safe_typed (hc.name j e hj))
     · exact not_mentions_kv hp sA (safe_optField hc.nil (fun a ha => hc.alias j e a hj ha))
     · exact not_mentions_kv hp sOw (safe_optField hc.nil (fun o ho => hc.owner j e o hj ho))
+    · exact not_mentions_kv hp sD (safe_optField hc.nil (fun o ho => hc.dep j e o hj ho))
     · exact not_mentions_listBucket hc.ne (hp2 _ sR) (fun r hr => hc.roles j e r hj hr) l hl
-    · cases hg : s.grp.lookup j with
-      | none => simp [hg] at hl
-      | some gs =>
-        simp only [hg] at hl
-        refine not_mentions_listBucket hc.ne (hp2 _ sG) ?_ l hl
-        intro g hgm
-        -- a linked owner exists
-        have h1 := (hi.link.sym j g).1 (by simp [hg, hgm])
-        cases hm : s.mem.lookup g with
-        | none => simp [hm] at h1
-        | some ms =>
-          have := hi.link.memDom g ms hm
-          cases hb : s.b.lookup g with
-          | none => simp [hb] at this
-          | some eb => exact bId g eb hb
+    · refine not_mentions_listBucket hc.ne (hp2 _ sG) ?_ l hl
+      intro g hgm
+      obtain ⟨eb, hb⟩ := bOf g (hi.g.fwd_target hg hgm)
+      exact bId g eb hb
+    · refine not_mentions_countBucket (hp2 _ sRB) ?_ hc.counts l hl
+      intro k n hkn
+      obtain ⟨eb, hb⟩ := bOf k (hi.rc.fwd_target hrc hkn)
+      exact bId k eb hb
     · cases hcd : e.code with
       | none => simp [hcd] at hl
       | some c =>
-        simp only [hcd, List.mem_cons, List.mem_nil_iff, or_false] at hl
-        rcases hl with rfl | rfl
+        simp only [hcd, List.mem_append, List.mem_cons, List.mem_nil_iff, or_false, mem_optBucket] at hl
+        rcases hl with (rfl | rfl) | ⟨ps, hps, hl⟩
         · exact not_mentions_bucket (hp2 _ sE)
         · exact not_mentions_kv (hp2 _ sE) sC (safe_typed (hc.code j e c hj hcd))
+        · refine not_mentions_listBucket hc.ne (hp3 _ _ sE sP) ?_ l hl
+          intro g hgm
+          obtain ⟨eb, hb⟩ := bOf g (hi.p.fwd_target hps hgm)
+          exact bId g eb hb
   · -- a B entity
     have sj : Safe id j := safe_of_not_clash (bId j e hj)
     have hp : ∀ x, x ∈ pathB j → Safe id x := by
@@ -160,32 +225,26 @@ theorem no_trace_of_absent {s : State} {id : Id} (hi : Inv s) (hc : NoClash id s
       rcases hx with hx | rfl
       · exact hp x hx
       · exact hn
-    simp only [renderB, List.mem_append, List.mem_cons, List.mem_nil_iff, or_false] at hl
-    rcases hl with ((rfl | rfl) | hl) | hl
+    simp only [renderB, List.mem_append, List.mem_cons, List.mem_nil_iff, or_false, mem_optBucket] at hl
+    rcases hl with ((((rfl | rfl) | ⟨ms, hm, hl⟩) | ⟨ps, hps, hl⟩) | ⟨c, hrc, hl⟩) | ⟨ts, ht, hl⟩
     · exact not_mentions_bucket hp
     · exact not_mentions_kv hp sL (safe_optField hc.nil (fun l hl => hc.label j e l hj hl))
-    · cases hm : s.mem.lookup j with
-      | none => simp [hm] at hl
-      | some ms =>
-        simp only [hm] at hl
-        refine not_mentions_listBucket hc.ne (hp2 _ sM) ?_ l hl
-        intro m hmm
-        have h1 := (hi.link.sym m j).2 (by simp [hm, hmm])
-        cases hg : s.grp.lookup m with
-        | none => simp [hg] at h1
-        | some gs =>
-          have := hi.link.grpDom m gs hg
-          cases ha : s.a.lookup m with
-          | none => simp [ha] at this
-          | some ea => exact aId m ea ha
-    · cases ht : s.thg.lookup j with
-      | none => simp [ht] at hl
-      | some ts =>
-        simp only [ht] at hl
-        refine not_mentions_listBucket hc.ne (hp2 _ sT) ?_ l hl
-        intro t htm
-        obtain ⟨_, ea, ha, _⟩ := (hi.br j t).1 (by simp [ht, htm])
-        exact aId t ea ha
+    · refine not_mentions_listBucket hc.ne (hp2 _ sM) ?_ l hl
+      intro m hmm
+      obtain ⟨ea, ha⟩ := aOf m (hi.g.bwd_source hm hmm)
+      exact aId m ea ha
+    · refine not_mentions_listBucket hc.ne (hp2 _ sPO) ?_ l hl
+      intro m hmm
+      obtain ⟨ea, ha⟩ := cOf m (hi.p.bwd_source hps hmm)
+      exact aId m ea ha
+    · refine not_mentions_countBucket (hp2 _ sRA) ?_ hc.counts l hl
+      intro k n hkn
+      obtain ⟨ea, ha⟩ := aOf k (hi.rc.bwd_source hrc hkn)
+      exact aId k ea ha
+    · refine not_mentions_listBucket hc.ne (hp2 _ sT) ?_ l hl
+      intro t htm
+      obtain ⟨_, ea, ha, _⟩ := (hi.br j t).1 (by simp [ht, htm])
+      exact aId t ea ha
   · -- unique index on name
     simp only [renderUnique, List.mem_singleton] at hl; subst hl
     obtain ⟨_, e, he, rfl⟩ := (hi.uName v i).1 hv
@@ -242,33 +301,41 @@ instance (id x : Bytes) : Decidable (Clash id x) := by unfold Clash; exact infer
 
 /-- executable sufficient check for `NoClash` (used for the non-vacuity examples) -/
 def noClashCheck (id : Id) (s : State) : Bool :=
-  decide (id ≠ []) && reserved.all (fun x => decide (¬ Clash id x)) && decide (¬ Clash id nilField) &&
+  decide (id ≠ []) && decide (id.length < 5) && reserved.all (fun x => decide (¬ Clash id x)) && decide (¬ Clash id nilField) &&
   s.a.entries.all (fun p =>
     (decide (p.1 = id) || decide (¬ Clash id p.1)) && decide (¬ Clash id p.2.name) &&
     (match p.2.alias with | some a => decide (¬ Clash id a) | none => true) &&
     p.2.roles.all (fun r => decide (¬ Clash id r)) &&
     (match p.2.owner with | some o => decide (¬ Clash id o) | none => true) &&
+    (match p.2.dep with | some o => decide (¬ Clash id o) | none => true) &&
     (match p.2.code with | some c => decide (¬ Clash id c) | none => true)) &&
   s.b.entries.all (fun p =>
     (decide (p.1 = id) || decide (¬ Clash id p.1)) &&
     (match p.2.label with | some l => decide (¬ Clash id l) | none => true))
 
+theorem counts_no_clash {id : Id} (h : id.length < 5) (n : Nat) : ¬ Clash id (encCount n) := by
+  rintro (h1 | h1 | h1)
+  · rw [← h1] at h; simp [encCount] at h
+  · simp [encCount, typed] at h1
+  · rw [← h1] at h; simp [encCount, typed] at h
+
 theorem noClash_of_check {id : Id} {s : State} (h : noClashCheck id s = true) : NoClash id s := by
   simp only [noClashCheck, Bool.and_eq_true, decide_eq_true_eq, List.all_eq_true, Bool.or_eq_true, Prod.forall,
     Map.mem_entries_iff] at h
-  obtain ⟨⟨⟨⟨h1, h2⟩, h3⟩, h4⟩, h5⟩ := h
-  refine ⟨h1, h2, h3, ?_, ?_, ?_, ?_, ?_, ?_, ?_, ?_⟩
+  obtain ⟨⟨⟨⟨⟨h1, h0⟩, h2⟩, h3⟩, h4⟩, h5⟩ := h
+  refine ⟨h1, h2, h3, ?_, ?_, ?_, ?_, ?_, ?_, ?_, counts_no_clash h0, ?_, ?_⟩
   · intro j e hj hne
-    rcases (h4 j e hj).1.1.1.1.1 with h | h
+    rcases (h4 j e hj).1.1.1.1.1.1 with h | h
     · exact absurd h hne
     · exact h
   · intro j e hj hne
     rcases (h5 j e hj).1 with h | h
     · exact absurd h hne
     · exact h
-  · intro j e hj; exact (h4 j e hj).1.1.1.1.2
-  · intro j e a hj ha; have := (h4 j e hj).1.1.1.2; simpa [ha] using this
-  · intro j e r hj hr; exact (h4 j e hj).1.1.2 r hr
+  · intro j e hj; exact (h4 j e hj).1.1.1.1.1.2
+  · intro j e a hj ha; have := (h4 j e hj).1.1.1.1.2; simpa [ha] using this
+  · intro j e r hj hr; exact (h4 j e hj).1.1.1.2 r hr
+  · intro j e o hj ho; have := (h4 j e hj).1.1.2; simpa [ho] using this
   · intro j e o hj ho; have := (h4 j e hj).1.2; simpa [ho] using this
   · intro j e c hj hc; have := (h4 j e hj).2; simpa [hc] using this
   · intro j e l hj hl; have := (h5 j e hj).2; simpa [hl] using this
